@@ -39,6 +39,90 @@ def digests(pid, n, workers):
     return {str(k): v for k, v in m["digests"].items()}, m
 
 
+def primitives(n_seeds=400):
+    """The simulator's own synchronisation primitives against their contracts, under many seeded
+    schedules: a bounded buffer over SimCondition (RLock and Lock flavour, re-entrant holder), a
+    SimSemaphore-guarded section, a SimEvent hand-shake, a SimQueue pipeline.  A bug here would show up
+    as a false deadlock or a false race in every check that meets such a primitive in eliot."""
+    from esim.dec import Decisions
+    from esim import sched as S
+    bad = []
+    for seed in range(n_seeds):
+        dec = Decisions(seed=seed)
+        sc = S.Sched(dec.stream("sched"), p_switch=[0.2, 0.6, 0.05][seed % 3], gran="op", max_steps=200000)
+        cond = S.SimCondition(S.SimLock() if seed % 2 else None)
+        sem = S.SimSemaphore(2)
+        ev = S.SimEvent()
+        q = S.SimQueue()
+        buf, out, inside, log, holders = [], [], [0], [], [0]
+        n_items, cap = 12, 2
+
+        def producer(k):
+            def fn():
+                for i in range(n_items):
+                    with cond:
+                        if seed % 2 == 0:
+                            cond.acquire()          # re-entrant holder: wait() must give up both levels
+                        while len(buf) >= cap:
+                            cond.wait()
+                        holders[0] += 1
+                        assert holders[0] == 1, "two threads inside the condition's lock"
+                        sc.yield_point("in-cs")
+                        buf.append((k, i))
+                        sc.yield_point("in-cs")
+                        holders[0] -= 1
+                        cond.notify_all()
+                        if seed % 2 == 0:
+                            cond.release()
+            return fn
+
+        def consumer():
+            for _ in range(2 * n_items):
+                with cond:
+                    ok = cond.wait_for(lambda: bool(buf))
+                    assert ok
+                    holders[0] += 1
+                    assert holders[0] == 1, "two threads inside the condition's lock"
+                    sc.yield_point("in-cs")
+                    out.append(buf.pop(0))
+                    holders[0] -= 1
+                    cond.notify_all()
+                with sem:
+                    inside[0] += 1
+                    assert inside[0] <= 2, "semaphore let %d in" % inside[0]
+                    sc.yield_point("in-sem")
+                    inside[0] -= 1
+            ev.set()
+            q.put("done")
+
+        def waiter():
+            assert ev.wait() is True
+            log.append(("after-event", len(out)))
+            assert q.get() == "done"
+
+        def main():
+            acts = [sc.spawn("p0", producer(0)), sc.spawn("p1", producer(1)), sc.spawn("c", consumer),
+                    sc.spawn("w", waiter)]
+            for a in acts:
+                sc.yield_point("join")
+                sc.join(a)
+        try:
+            sc.run_main(main)
+        except S.SimAbort:
+            pass
+        errs = [repr(a.exc) for a in sc.actors if a.exc is not None]
+        per = {0: [i for k, i in out if k == 0], 1: [i for k, i in out if k == 1]}
+        if sc.deadlock or sc.abort or errs or per[0] != list(range(n_items)) or per[1] != list(range(n_items)) \
+                or log != [("after-event", 2 * n_items)]:
+            bad.append((seed, sc.deadlock, sc.abort, errs[:2], len(out)))
+    if bad:
+        print("HARNESS-ERROR: simulator primitives misbehave in %d of %d schedules, e.g. %r" % (len(bad), n_seeds, bad[0]))
+        return False
+    print("selftest primitives: SimCondition/SimSemaphore/SimEvent/SimQueue/SimLock/SimRLock contracts hold in "
+          "%d seeded schedules" % n_seeds)
+    return True
+
+
 def main():
     args = sys.argv[1:]
     if args and args[0] == "--digests":
@@ -51,6 +135,8 @@ def main():
     for mod in ("orjson", "pyrsistent", "boltons", "zope.interface"):
         __import__(mod)
     bad = 0
+    if not primitives():
+        bad += 1
     for pid in claimed():
         a, m = digests(pid, n, 16)
         b, _ = digests(pid, n, 3)
